@@ -12,6 +12,7 @@ package wire
 
 import (
 	"bytes"
+	"encoding/binary"
 	"errors"
 	"fmt"
 	"math/rand"
@@ -338,10 +339,8 @@ func (s *stepper) makePool() error {
 
 func cuts(rng *rand.Rand, msg []byte) []int {
 	c := map[int]bool{1: true, len(msg) - 1: true}
-	for _, k := range []int{3, 4, 5, 7, 8, 9, len(msg) / 2} {
-		if k > 0 && k < len(msg) && rng.Intn(3) == 0 {
-			c[k] = true
-		}
+	if k := []int{3, 4, 5, 7, 8, 9, len(msg) / 2}[rng.Intn(7)]; k > 0 && k < len(msg) && rng.Intn(2) == 0 {
+		c[k] = true
 	}
 	if len(msg) > 2 {
 		c[1+rng.Intn(len(msg)-1)] = true
@@ -476,7 +475,7 @@ func (s *stepper) buildVariants() error {
 				}
 				break
 			}
-			for _, k := range []int{1, 3, 4, 5, 7} {
+			for _, k := range []int{1, 4, 7} {
 				add(fmt.Sprintf("cut_in/eos@%d", k), cat(base, eosMarker[:k]))
 			}
 			msg := s.pool[s.rng.Intn(len(s.pool))]
@@ -958,7 +957,8 @@ type refs struct {
 // value a helper returns for a prefix must be the value it returns for the
 // whole body (or nothing).
 func (s *stepper) runAll(v variant, ref *refs, misread *[]string) (panics []string) {
-	t := s.callTokens(v)
+	var t tokRes
+	t.panicked = s.timed("FindStreamTokens", v, func() { t.state, t.call = vgirpc.FindStreamTokens(v.data) })
 	var pv string
 	pp := s.timed("FindProtocolVersion", v, func() { pv = vgirpc.FindProtocolVersion(v.data) })
 	u := s.callUnary(v)
@@ -1007,7 +1007,31 @@ func garble(rng *rand.Rand, data []byte) (g []byte, what string) {
 	}
 	for n := 1 + rng.Intn(3); n > 0; n-- {
 		i := rng.Intn(len(g))
-		op := rng.Intn(9)
+		op := rng.Intn(11)
+		if op >= 9 {
+			// aim at a buffer (validity / offsets / values) inside a message body
+			var bodies []frame
+			if fr, ok := frames(g); ok {
+				for _, f := range fr {
+					if f.end-f.metaEnd >= 4 {
+						bodies = append(bodies, f)
+					}
+				}
+			}
+			if len(bodies) == 0 {
+				op = 4
+			} else {
+				f := bodies[rng.Intn(len(bodies))]
+				i = f.metaEnd + 4*rng.Intn((f.end-f.metaEnd)/4)
+				if rng.Intn(2) == 0 && f.end-f.metaEnd >= 16 {
+					i = f.metaEnd + 4*rng.Intn(4) // the first words: offsets of the first column
+				}
+				v := []uint32{0xFFFFFFFF, 0x7FFFFFFF, 0x80000000, uint32(len(g)), 0xFFFFFF00, uint32(rng.Intn(1 << 16))}[rng.Intn(6)]
+				binary.LittleEndian.PutUint32(g[i:], v)
+				what += fmt.Sprintf("body-word@%d=%#x ", i, v)
+				continue
+			}
+		}
 		what += fmt.Sprintf("op%d@%d ", op, i)
 		switch op {
 		case 0:
@@ -1068,12 +1092,14 @@ func (s *stepper) stepMalformed(st replay.Step) (replay.Obs, error) {
 	}
 	offs := map[int]bool{0: true}
 	for _, f := range fr {
-		for _, o := range []int{f.start + 4, f.metaEnd, f.end} { // after the continuation marker, after the metadata, after the body
-			for d := -1; d <= 1; d++ {
-				if o+d >= 0 && o+d < len(s.clean) {
-					offs[o+d] = true
-				}
+		for d := -1; d <= 1; d++ { // the message boundary and one byte either side
+			if o := f.end + d; o >= 0 && o < len(s.clean) {
+				offs[o] = true
 			}
+		}
+		if !f.eos {
+			offs[f.metaEnd] = true // metadata complete, body missing
+			offs[f.start+4+s.rng.Intn(f.end-f.start-4)] = true
 		}
 	}
 	var cutsAt []int
@@ -1087,7 +1113,7 @@ func (s *stepper) stepMalformed(st replay.Step) (replay.Obs, error) {
 		panics = append(panics, s.runAll(v, ref, &misread)...)
 	}
 	// 2. byte-garbled copies and 3. arbitrary byte strings, in the child process
-	var fatal []string
+	var fatalAlloc, fatalOther []string
 	inChild := func(name string, data []byte, mustReject bool) error {
 		if declaresHuge(data, hugeLimit) {
 			skipped++
@@ -1099,8 +1125,10 @@ func (s *stepper) stepMalformed(st replay.Step) (replay.Obs, error) {
 			return err
 		}
 		switch {
+		case strings.HasPrefix(dead, "alloc: "):
+			fatalAlloc = append(fatalAlloc, fmt.Sprintf("%s (%d bytes, head %x): %s", name, len(data), head(data, 64), dead))
 		case dead != "":
-			fatal = append(fatal, fmt.Sprintf("%s (%d bytes, head %x): %s", name, len(data), head(data, 64), dead))
+			fatalOther = append(fatalOther, fmt.Sprintf("%s (%d bytes, head %x): %s", name, len(data), head(data, 64), dead))
 		case strings.HasPrefix(reply, "P:"):
 			panics = append(panics, name+": "+reply[2:])
 		case strings.HasPrefix(reply, "A:") && mustReject:
@@ -1123,9 +1151,10 @@ func (s *stepper) stepMalformed(st replay.Step) (replay.Obs, error) {
 			return nil, err
 		}
 	}
-	o := replay.Obs{"panics": len(panics), "misread": len(misread), "junk_accepted": len(accepted), "fatal": len(fatal)}
+	o := replay.Obs{"panics": len(panics), "misread": len(misread), "junk_accepted": len(accepted),
+		"fatal_alloc": len(fatalAlloc), "fatal_other": len(fatalOther)}
 	var notes []string
-	for _, l := range [][]string{fatal, panics, misread, accepted, s.slow} {
+	for _, l := range [][]string{fatalOther, fatalAlloc, panics, misread, accepted, s.slow} {
 		if len(l) > 0 {
 			notes = append(notes, l[0])
 		}
